@@ -12,12 +12,12 @@ ASSUME = [
 RULE = 'operation pairs x every interleaving of their lock operations within the preemption bound; a pair is non-trivial when both operations touch the same object'
 
 def build():
-    ov = vlib.make_overlay('c20', harness=['main', 'ircserver', 'outputstream'], engines=['vsyncr'], rewrite_sync=REWRITE,
+    ov = vlib.make_overlay('c20', harness=['main', 'ircserver', 'outputstream', 'api'], engines=['vsyncr'], rewrite_sync=REWRITE,
                            rewrite_harness=[('outputstream', 'export.go')], vsync_pkg='vsyncr')
     # the outputstream harness dir also holds scheduler-mode tests that import internal/verif/vsync: mount only what is needed
     ovj = json.load(open(ov))
     for k in list(ovj['Replace']):
-        if '/internal/outputstream/zz_verif_' in k and not k.endswith('zz_verif_export.go'):
+        if ('/internal/outputstream/zz_verif_' in k or '/internal/api/zz_verif_' in k) and not k.endswith('zz_verif_export.go'):
             del ovj['Replace'][k]
     json.dump(ovj, open(ov, 'w'), indent=1)
     return vlib.build_test('.', os.path.join(vlib.BUILD, 'c20.test'), ov, race=True, tags='verif verifrace')
